@@ -117,7 +117,10 @@ func is(p Pair, side int, rel, comp string) bool {
 
 // epAuth is the authentication an endpoint is called with in pairs about it (nil otherwise):
 // ep_auth = basic_auth, ep_apikey = api_key; "differ" changes the secret, the shift moves the boundary
-// between the two adjacent fields (user|password, name|value).
+// between the two adjacent fields (user|password, name|value); ep_httpsig = http_message_signatures
+// (signer name|key id; the key store holds the keys "c" and "bc").
+var sigStore string //nolint:gochecknoglobals // key store of the http_message_signatures pairs (set by NewEnv)
+
 func epAuth(p Pair, side int) map[string]any {
 	basic := func(u, pw string) map[string]any {
 		return map[string]any{"type": "basic_auth", "config": map[string]any{"user": u, "password": pw}}
@@ -126,7 +129,26 @@ func epAuth(p Pair, side int) map[string]any {
 		return map[string]any{"type": "api_key", "config": map[string]any{"in": "header", "name": n, "value": v}}
 	}
 
+	httpSig := func(name, kid string) map[string]any {
+		return map[string]any{"type": "http_message_signatures", "config": map[string]any{
+			"signer":     map[string]any{"name": name, "key_id": kid, "key_store": map[string]any{"path": sigStore}},
+			"components": []any{"@method"},
+		}}
+	}
+
 	switch {
+	case p.Rel == "differ" && p.Comp == "ep_httpsig":
+		if side == 2 {
+			return httpSig("n", "bc") // another key signs
+		}
+
+		return httpSig("n", "c")
+	case p.Rel == "shift" && p.Comp == "ep_httpsig.k|v":
+		if side == 2 {
+			return httpSig("a", "bc")
+		}
+
+		return httpSig("ab", "c")
 	case p.Rel == "differ" && p.Comp == "ep_auth":
 		if side == 2 {
 			return basic("usr", "pw2")
